@@ -15,6 +15,7 @@ C07 — equality is a structural equivalence relation.
 The list of direction-agnostic types is generated from the source; `dontCare_eq` pins it.
 -/
 import CG.Proofs.Lemmas.Eq
+import CG.Generated.DontCare
 import CG.Proofs.Lemmas.Skeleton
 
 namespace CG.C07
@@ -23,7 +24,9 @@ open CG CG.Sk Std
 /-! ### the generated list -/
 
 /-- If `Edge.__eq__`'s `dont_care_direction` list changes in the source, this obligation breaks the build. -/
-theorem dontCare_eq : Generated.dontCareDirection = ["--", "<>", "oo"] := rfl
+theorem dontCare_eq :
+    (∀ t ∈ EdgeType.all, (Generated.dontCareDirection.contains t.text) = dontCare.contains t) ∧
+      Generated.dontCareDirection.all (fun s => (EdgeType.ofText? s).isSome) = true := by decide
 
 /-! ### the structural relation -/
 
